@@ -163,7 +163,16 @@ func (f *frame) val(v ssa.Value) Val {
 }
 
 func sanitize(s string) string {
-	return strings.NewReplacer("(", "", ")", "", "*", "P", " ", "_", "/", "_", "$", "_", "[", "_", "]", "_", ",", "_").Replace(s)
+	s = strings.NewReplacer("(", "", ")", "", "*", "P").Replace(s)
+	var sb strings.Builder
+	for _, r := range s {
+		if r >= 'a' && r <= 'z' || r >= 'A' && r <= 'Z' || r >= '0' && r <= '9' || r == '_' || r == '.' || r == '!' {
+			sb.WriteRune(r)
+		} else {
+			sb.WriteByte('_')
+		}
+	}
+	return sb.String()
 }
 
 // setReg defines register v as term (define-fun) and records it.
@@ -346,13 +355,8 @@ func (f *frame) lookupLocal(li *loopInfo, phiVals map[*ssa.Phi]Val, at *ssa.Basi
 		}
 		var found *Val
 		best := -1
+		foundConst := false
 		for _, b := range f.fn.Blocks {
-			if !(b.Dominates(at)) {
-				continue
-			}
-			if li != nil && b == li.header && at == li.header {
-				continue
-			}
 			for _, in := range b.Instrs {
 				dr, ok := in.(*ssa.DebugRef)
 				if !ok || dr.IsAddr {
@@ -362,20 +366,49 @@ func (f *frame) lookupLocal(li *loopInfo, phiVals map[*ssa.Phi]Val, at *ssa.Basi
 				if obj == nil || obj.Name() != name {
 					continue
 				}
-				var r Val
-				if rv, ok := f.regs[dr.X]; ok {
-					r = rv
-				} else if c, ok := dr.X.(*ssa.Const); ok {
-					r = f.val(c)
-				} else if p, ok := dr.X.(*ssa.Parameter); ok {
-					r = f.val(p)
-				} else {
+				if tv, isVar := obj.(*types.Var); !isVar || tv.IsField() {
 					continue
 				}
-				if d := depth(b); d >= best {
+				// the value this occurrence of the variable denotes, and where that value is defined
+				var r Val
+				var def *ssa.BasicBlock
+				isConst := false
+				switch x := dr.X.(type) {
+				case *ssa.Const:
+					// (the builder records the declaration itself with the zero value)
+					if !b.Dominates(at) {
+						continue
+					}
+					r, def, isConst = f.val(x), b, true
+				case *ssa.Parameter:
+					r, def = f.val(x), f.fn.Blocks[0]
+				default:
+					ins, isInstr := dr.X.(ssa.Instruction)
+					rv, have := f.regs[dr.X]
+					if !isInstr || !have {
+						continue
+					}
+					def = ins.Block()
+					if !def.Dominates(at) {
+						continue
+					}
+					if li != nil && def == li.header && at == li.header {
+						if _, isPhi := dr.X.(*ssa.Phi); !isPhi {
+							continue
+						}
+					}
+					// a value defined inside a loop that does not contain `at` is not the variable's current value
+					r = rv
+				}
+				d := depth(def)
+				if found == nil || (foundConst && !isConst) || (foundConst == isConst && d >= best) {
+					if found != nil && !foundConst && isConst {
+						continue
+					}
 					best = d
 					rr := r
 					found = &rr
+					foundConst = isConst
 				}
 			}
 		}
@@ -428,10 +461,31 @@ func (f *frame) invEnv(li *loopInfo, heap *Heap, phiVals map[*ssa.Phi]Val, at *s
 		}
 	}
 	env.lookup = f.lookupLocal(li, phiVals, at)
+	// a parameter that was reassigned before the loop: its name means the current value (name0 the entry value)
+	for _, p := range f.fn.Params {
+		if v, ok := env.lookup(p.Name()); ok && v.T != env.vars[p.Name()].T {
+			if _, isPhi := phiNamed(li, p.Name()); !isPhi {
+				env.vars[p.Name()] = v
+			}
+		}
+	}
 	if li.rangeIt != nil {
 		env.vars["$itpos"] = *li.rangeIt
 	}
 	return env
+}
+
+func phiNamed(li *loopInfo, name string) (*ssa.Phi, bool) {
+	for _, in := range li.header.Instrs {
+		if phi, ok := in.(*ssa.Phi); ok {
+			if phi.Comment == name {
+				return phi, true
+			}
+		} else {
+			break
+		}
+	}
+	return nil, false
 }
 
 func (f *frame) bindParams(env *Env) {
@@ -455,7 +509,10 @@ func (f *frame) bindParams(env *Env) {
 	for i, fv := range f.fn.FreeVars {
 		if i < len(f.freeVars) {
 			if _, clash := env.vars[fv.Name()]; !clash {
-				env.vars[fv.Name()] = f.freeVars[i]
+				v := f.freeVars[i]
+				v.Cell = isCellType(fv.Type())
+				env.vars[fv.Name()] = v
+				env.entry[fv.Name()] = v
 			}
 		}
 	}
